@@ -756,7 +756,7 @@ func (v *Verifier) touchesGuarded(fn *ssa.Function) bool {
 				continue
 			}
 			ts := v.contracts.Types[typeKey(pt.Elem())]
-			if ts == nil || ts.GuardedBy == "" {
+			if ts == nil || (ts.GuardedBy == "" && len(ts.Atomic) == 0) {
 				continue
 			}
 			st, ok := pt.Elem().Underlying().(*types.Struct)
@@ -765,6 +765,11 @@ func (v *Verifier) touchesGuarded(fn *ssa.Function) bool {
 			}
 			name := st.Field(fa.Field).Name()
 			for _, g := range ts.Guarded {
+				if g == name {
+					return true
+				}
+			}
+			for _, g := range ts.Atomic {
 				if g == name {
 					return true
 				}
